@@ -179,13 +179,18 @@ def load_known(prop):
 
 
 def write_evidence(prop, tier, seed, level, coverage, wall, violations, assumptions):
-    os.makedirs(os.path.join(ROOT, "evidence"), exist_ok=True)
+    edir = os.path.join(ROOT, "evidence")
+    if os.path.realpath(REPO) != "/repo":
+        # a run against a scratch worktree (mutation testing, seeded changes) must not replace the evidence of /repo
+        edir = os.path.join(WORK, "evidence-" + hashlib.sha1(os.path.realpath(REPO).encode()).hexdigest()[:8])
+    os.makedirs(edir, exist_ok=True)
     ev = {
         "property_id": prop, "tier": tier, "seed": int(seed), "level": level,
         "coverage": coverage, "assumptions": assumptions, "wall_s": round(wall, 2),
         "violations": int(violations),
     }
-    p = os.path.join(ROOT, "evidence", f"{prop}.json")
+    ev["tree"] = os.path.realpath(REPO)
+    p = os.path.join(edir, f"{prop}.json")
     tmp = p + ".tmp"
     json.dump(ev, open(tmp, "w"), indent=1, sort_keys=True)
     os.replace(tmp, p)
